@@ -70,6 +70,15 @@ Definition at_ {E : Type} (q : seq E) (n : N) : option E :=
       (None, n) in
   res.
 
+(* the body of the loop over the ';'-separated parameters in parseForwardedListItem:
+   state = forPart; `continue` = (state, true), `break` = (state, false) *)
+Definition for_yield (fp forPart : bytes) : bytes * bool :=
+  let fp := trim_space fp in
+  match cut "=" fp with
+  | None => (forPart, true)                                    (* too few equal signs: continue *)
+  | Some (k, v) => if is_for k then (v, false) else (forPart, true)
+  end.
+
 Section Items.
   Variable A : Type.
   Variable parse : bytes -> pres A.
@@ -77,14 +86,7 @@ Section Items.
   (* parseForwardedListItem; outer None = panic *)
   Definition parse_forwarded_list_item (fwd : bytes) : option (option A) :=
     let '(forPart, _) :=
-      take (split_seq ";" fwd) 4 bytes
-        (fun fp forPart =>
-           let fp := trim_space fp in
-           match cut "=" fp with
-           | None => (forPart, true)                                    (* continue *)
-           | Some (k, v) => if is_for k then (v, false) else (forPart, true)
-           end)
-        [] in
+      take (split_seq ";" fwd) 4 bytes for_yield [] in
     let forPart := trim_space forPart in
     match trim_matched_ends forPart (S2B """") with
     | None => None
